@@ -3,7 +3,7 @@
 # Applies one seeded change in the dedicated evaluation worktree /tmp/seedeval (never in a seeder's own worktree),
 # runs the given checks against it (SCORES_REPO), restores the worktree and regenerates Gen/ from /repo.
 DIFF=$1; shift
-WT=/tmp/seedeval
+WT=${SEEDEVAL_WT:-/tmp/seedeval}
 cd "$(dirname "$0")/.."
 git -C "$WT" checkout -q -- .
 git -C "$WT" apply "$DIFF" 2>/dev/null || (cd "$WT" && patch -s -p1 --fuzz=3 --no-backup-if-mismatch < "$DIFF") || { echo "APPLY-FAILED $DIFF"; exit 3; }
